@@ -111,14 +111,14 @@ var c09Catalogue = []violation{
 		return true
 	}},
 	{"extend-in-model", func(rng *rand.Rand, m *Model) bool {
-		if m.Module != "" {
+		if m.Module != "" || len(m.Types) == 0 {
 			return false
 		}
 		m.Types[rng.Intn(len(m.Types))].Extend = true
 		return true
 	}},
 	{"extend-twice", func(rng *rand.Rand, m *Model) bool {
-		if m.Module == "" {
+		if m.Module == "" || len(m.Types) == 0 {
 			return false
 		}
 		i := rng.Intn(len(m.Types))
